@@ -900,6 +900,54 @@ def _factor_shape(m):
     return None
 
 
+def _dense(v):
+    if hasattr(v, "toarray"):
+        v = v.toarray()
+    if isinstance(v, (list, tuple)):
+        return np.array([_dense(e) for e in v])
+    return np.asarray(v)
+
+
+def reuse_after_set_zero(ctx, env, t, x, m):
+    """'always': an object that was converted once, reset in place with set_zero() and converted again yields
+    representations of the operator it denotes NOW (zero), through every implementation."""
+    from quara.objects.mprocess import MProcess
+
+    n = env.n
+    if t == "state":
+        q = _state(env, x)
+        calls = {"State.to_density_matrix": lambda: q.to_density_matrix(),
+                 "State.to_density_matrix_with_sparsity": lambda: q.to_density_matrix_with_sparsity()}
+    elif t == "povm":
+        q = _povm(env, [x[i * n:(i + 1) * n] for i in range(m)])
+        calls = {"Povm.matrices": lambda: q.matrices(), "Povm.matrices_with_sparsity": lambda: q.matrices_with_sparsity(),
+                 "Povm.matrix": lambda: q.matrix(0)}
+    elif t == "gate":
+        q = _gate(env, x.reshape(n, n))
+        calls = {"Gate.to_choi_matrix": lambda: q.to_choi_matrix(), "Gate.to_choi_matrix_with_dict": lambda: q.to_choi_matrix_with_dict(),
+                 "Gate.to_choi_matrix_with_sparsity": lambda: q.to_choi_matrix_with_sparsity(),
+                 "Gate.to_process_matrix": lambda: q.to_process_matrix()}
+    else:
+        q = MProcess(env.c_sys, [x[i * n * n:(i + 1) * n * n].reshape(n, n).copy() for i in range(m)], is_physicality_required=False)
+        calls = {"MProcess.to_choi_matrix": lambda: q.to_choi_matrix(m - 1), "MProcess.to_choi_matrix_with_dict": lambda: q.to_choi_matrix_with_dict(m - 1),
+                 "MProcess.to_choi_matrix_with_sparsity": lambda: q.to_choi_matrix_with_sparsity(m - 1),
+                 "MProcess.to_process_matrix": lambda: q.to_process_matrix(m - 1)}
+    first = {}
+    for nm, fn in calls.items():
+        ok, out = guard(ctx, f"{nm}@before_set_zero", fn)
+        if ok:
+            first[nm] = _dense(out)
+    q.set_zero()
+    for nm, fn in calls.items():
+        if nm not in first:
+            continue
+        ok, out = guard(ctx, f"{nm}@after_set_zero", fn)
+        if ok:
+            out = _dense(out)
+            ctx.check(out.shape == first[nm].shape and not np.any(out), f"{nm}@after_set_zero",
+                      lambda nm=nm, out=out: f"{nm} of an object reset with set_zero() is not the zero operator: max|.|={float(np.max(np.abs(out))) if out.size else 0:.3e}")
+
+
 def check_agreement(case, ctx):
     cfg, obj = case["cfg"], case["obj"]
     t = obj["type"]
@@ -909,6 +957,7 @@ def check_agreement(case, ctx):
     x = _obj_stacked(env, obj, case["pert"], case["pert_scale"])
     scale = float(np.max(np.abs(x), initial=0.0))
     n = env.n
+    reuse_after_set_zero(ctx, env, t, x, obj.get("m"))
     if t == "state":
         ref, _ = run_conv(ctx, env, "vec2dm", x, {}, "agree", scale)
         run_conv(ctx, env, "dm2vec", rm.herm(ref), {}, "agree", scale)
